@@ -232,6 +232,10 @@ pub fn run(cfg: &RunCfg) -> PropRun {
     run.rule = "pairs/triples/lists of versions: (a) every ordered pair of the 912-version small scope and every ordered triple of a 114-version stratified subset, enumerated; (b) proptest lists of 3..6 related versions (mutations of a base: bump a field, add/drop/change an identifier, numeric<->alphanumeric, case flip, build only) built by struct literal or by parsing. Oracle: SemVer section 11 comparator on the model + order laws. Non-trivial = ordered pair with equal major.minor.patch (decided by release-vs-prerelease, identifiers or build only); distinct by the two canonical texts.".into();
     run.assumptions = vec!["numeric identifiers < 2^64 (the property's stated domain)".into(), "DefaultHasher with fixed keys".into()];
 
+    if let Err(e) = crate::golden::check_cmp_golden(&mut run.stats) {
+        run.inconclusive.push(e);
+        return run;
+    }
     // (a) exhaustive pairs
     let scope = small_scope();
     let cscope: Vec<Version> = scope.iter().map(|v| v.to_crate()).collect();
